@@ -1017,7 +1017,18 @@ def has_ignore_comment(source: str, rng: Range) -> bool:
         line_start = character_count
         line_end = character_count = line_start + len(line)
 
-        if rng & Range(line_start, line_end) and pattern.search(line):
+        if rng.start == rng.end:
+            # An insertion. Text that is inserted anywhere from the first column of a line up to its
+            # line terminator (the end of the source, for an unterminated last line) becomes part
+            # of that line.
+            terminated = strip_line_terminator(line) != line
+            touches_line = line_start <= rng.start < line_end or (
+                rng.start == line_end and not terminated
+            )
+        else:
+            touches_line = rng & Range(line_start, line_end)
+
+        if touches_line and pattern.search(line):
             return True
 
     return False
